@@ -1,5 +1,5 @@
 \* the secondary input dimensions (PathSafe!SecondaryDims), one record per combination; the runner assigns them to scenarios
-CONSTANTS TitleClean = "rooted" ExtractGuard = "reroot" LinkPolicy = "skip" DeleteValidates = TRUE MaxFull = 1 MaxCore = 1
+CONSTANTS TitleClean = "rooted" ExtractGuard = "reroot" Whiteout = "none" LinkPolicy = "skip" DeleteValidates = TRUE MaxFull = 1 MaxCore = 1
   Eps = {"dim"}
 CONSTANT WithVerdict = FALSE
 INIT Init
